@@ -10,8 +10,8 @@ using namespace c13;
 static const bool kGated = true;
 #define C13_SUFFIX "_g"
 #elif !defined(ALLOC_BALANCE_ASAN)
-// throughput flavor (no sanitizers): only the deepest exhaustive level, whose 3.8e8 histories cost ~90 us each under
-// ASan (every query and every deletion allocates a std::deque) and ~5 us without
+// throughput flavor (no sanitizers): the deepest exhaustive level, whose 3.8e8 histories cost ~90 us each under
+// ASan (every query and every deletion allocates a std::deque) and ~5 us without, and the tallest chains (kdchain_o2)
 static const bool kGated = false;
 #define C13_SUFFIX "_o2"
 #define C13_FAST 1
